@@ -218,6 +218,27 @@ ADD8 = {
  "C20": "saveClientConf reports success only after the rename (no 'unchanged' shortcut); everything SetClientConf (or a method it calls on the same object) writes before the save is written again on the failure path.",
 }
 
+ADD9 = {
+ "C01": "the registrars rewrite a registration's ClientConf generation only on the bidirectional path (where the newer ClientConf goes back to the client).",
+ "C02": "the connecting-transport attempt is reachable only through AddRegistration, for the delivery itself.",
+ "C03": "the candidate set the transports range over is a copy made under the lock (shared with C11.9); returns of the handler before the deadline is armed sit directly behind a nil test (no address / failed lookup).",
+ "C04": "activation writes the record held by the timeout table, not a copy (shared with C08.4); a candidate list walked by index does not lose an element to the removal of its neighbour.",
+ "C05": "hbConn.Read tries the receive queue (non-blocking) before the wait that includes the closed channel.",
+ "C06": "isBlocklistedCovertDomain reads the pattern list on every path.",
+ "C07": "admission (and sharing) is unreachable from the probe once the edges on which the verdict is 'not live' are removed - whatever error value came with it.",
+ "C08": "the two registration tables are assigned only where the registry is constructed (never swapped for a rebuilt copy).",
+ "C09": "the statistics report calls its modules with no Stats mutex held; registrationExists answers 'not tracked' only behind a missed lookup; the tables are never replaced (shared with C08.11).",
+ "C10": "nothing the ingest path calls writes into an address / byte slice it was handed (net.IP.To16 / To4 aliasing modelled).",
+ "C11": "a message allocated locally and then unmarshalled into is external input for the nil-guard rule (a hole that hid direct field access on its sub-messages is closed); the liveness LRU is never modified under the cache mutex (shared with C09.17).",
+ "C12": "the forwarded wrapper carries the response in RegistrationResponse whatever the authentication mode; once read from the response, the phantom address is not reset before it is stored.",
+ "C13": "nothing that may only be called once (expvar.New*, MustRegister, flag, http.Handle) is called on the reload path.",
+ "C14": "math/rand Intn / Int63n bounds are positive constants or guarded; the configured subnet strings are never rewritten.",
+ "C15": "TryReveal's minimum length equals the encoding of the empty tag (48 GCM / 32 CTR, by value); the DNS decoders store no constant into a decoded field.",
+ "C16": "handshake deadlines are cleared on the connection they were armed on (shared with C05.12); Read drains its queue before reporting the close (shared with C05.13).",
+ "C19": "the statistics maps are iterated only with their mutex in the must-held set (a map picked up under the lock and walked after it is still the live map).",
+ "C20": "the assets package never links or symlinks a file.",
+}
+
 ALL = ["C%02d" % i for i in range(1, 21)]
 
 def main():
@@ -232,7 +253,7 @@ def main():
                 "evidence_file": "/verif/evidence/%s.json" % pid,
                 "replay_cmd_template": "cat {path}",
                 "engine": "cjverif",
-                "level_claimed": {"category": "other", "text": ent[2] + (" Further decided (seed rounds 3-4, DESIGN 10.5): " + ADD34[pid] if pid in ADD34 else "") + (" Round 5: " + ADD5[pid] if pid in ADD5 else "") + (" Round 6: " + ADD6[pid] if pid in ADD6 else "") + (" Round 7: " + ADD7[pid] if pid in ADD7 else "") + (" Round 8: " + ADD8[pid] if pid in ADD8 else ""), "design_ref": "DESIGN.md section " + ent[3] + " and 10.2"},
+                "level_claimed": {"category": "other", "text": ent[2] + (" Further decided (seed rounds 3-4, DESIGN 10.5): " + ADD34[pid] if pid in ADD34 else "") + (" Round 5: " + ADD5[pid] if pid in ADD5 else "") + (" Round 6: " + ADD6[pid] if pid in ADD6 else "") + (" Round 7: " + ADD7[pid] if pid in ADD7 else "") + (" Round 8: " + ADD8[pid] if pid in ADD8 else "") + (" Round 9: " + ADD9[pid] if pid in ADD9 else ""), "design_ref": "DESIGN.md section " + ent[3] + " and 10.2"},
                 "level_note": NOTE,
                 "technique": "static analysis: " + ent[1],
             })
